@@ -169,7 +169,9 @@ pub fn build_file(word: &[Sym], seed: u64) -> Option<(Vec<u8>, State)> {
         }
         let cur = frames.len() - 1;
         match sym {
-            Sym::L => frames[cur].push(fin(layer_chunk(&Layer { flags: 3, kind: LayerKind::Image, level: 0, blend: 0, opacity: 255, name: format!("l{}", pos), user_data: None }, &mut None), &mut rng)),
+            // every fourth layer (by seed and position) is a group layer: cels and records on it are attached like any
+            // other (the file format lets a cel chunk name any layer)
+            Sym::L => frames[cur].push(fin(layer_chunk(&Layer { flags: 3, kind: if mix(seed, pos as u64 + 4242) % 4 == 0 { LayerKind::Group } else { LayerKind::Image }, level: 0, blend: 0, opacity: 255, name: format!("l{}", pos), user_data: None }, &mut None), &mut rng)),
             Sym::C | Sym::Ch => {
                 let l = match st.ctx {
                     Ctx::Cel(_, l) => l,
